@@ -161,6 +161,26 @@ def p_c18(facts, rep, tier):
     rep.trust("rustc MIR (nightly, mir-opt-level=0)", "rules/panic_sites.py dispositions", "may-panic API table in rules/panicfree.py")
 
 
+def p_c19(facts, rep, tier):
+    import reclaim
+
+    rep.explanation = (
+        "C19 (structure only): U1 occupancy agreement - DB::utilization reports Shared.occupied_buckets; the counter is initialised in DB::open from "
+        "MetaMap::full_count() taken after the WAL redo can have run, is otherwise changed only by fetch_add / fetch_sub of DB::prepare_sync's delta, and in "
+        "prepare_sync every -= 1 of the delta is paired with a MetaMap::set_tombstone of the same loop arm and every += 1 with a MetaMap::set_full, and vice versa. "
+        "U2 freed pages reach the free list of their own file: SyncFinisher::finish is given the freed_pages of the stage that allocated from the same "
+        "Store::start_sync call, hands them to FreeList::commit, which hands them to push_and_encode; each stage collects the replaced (`deleted`) pages and the "
+        "tracker's extra_freed. U3 SyncAllocator::allocate takes a page from the bump only behind a comparison of the allocation index with the clean free "
+        "list's length. The page arithmetic (every page below the frontier in use or free, frontier not growing over fill/empty cycles, the count being right) is not decided."
+    )
+    n1, n2, n3 = reclaim.run(facts, rep)
+    rep.floor("U1 occupancy obligations", n1, 8)
+    rep.floor("U2 freed-page flow obligations", n2, 8)
+    rep.floor("U3 obligations", n3, 2)
+    rep.assume("path feasibility is ignored", "MetaMap::set_full / set_tombstone / full_count do what their names say (bitbox/meta_map.rs is not analysed beyond its call sites)")
+    rep.trust("rustc MIR (nightly, mir-opt-level=0)", "rules/reclaim.py anchors")
+
+
 def p_c20(facts, rep, tier):
     import dirlock
 
@@ -362,6 +382,7 @@ PROPS = {
     "C15": p_c15,
     "C17": p_c17,
     "C18": p_c18,
+    "C19": p_c19,
     "C20": p_c20,
 }
 
